@@ -18,6 +18,16 @@ class MyCustomError(Exception):
     pass
 
 
+class BadReprError(Exception):
+    """A hand-written exception class whose rendering itself fails."""
+
+    def __repr__(self):
+        raise RuntimeError('S3CR3T9r')
+
+    def __str__(self):
+        raise RuntimeError('S3CR3T9s')
+
+
 EXC_TABLE = {
     0: lambda: ValueError('S3CR3T0'),
     1: lambda: KeyError('S3CR3T1'),
@@ -29,6 +39,7 @@ EXC_TABLE = {
     6: lambda: _validators.ValidationError('S3CR3T6'),
     7: lambda: pjrpc.exceptions.DeserializationError('S3CR3T7'),
     8: lambda: pjrpc.exceptions.IdentityError('S3CR3T8'),
+    9: lambda: BadReprError('S3CR3T9'),
 }
 EXC_NAMES = ['ValueError', 'KeyError', 'TypeError', 'AssertionError', 'RuntimeError', 'MyCustomError', 'Traceback', 'S3CR3T']
 
@@ -108,6 +119,8 @@ def make_callable(m, is_async, log):
         lines.append('    HERR_.code, HERR_.message = code, message')
         lines.append('    HERR_.data = UNSET if data == %r else data' % DEFAULT)
         lines.append('    raise HERR_')
+    elif body[0] == 'bindfail':
+        lines.append('    raise AssertionError("unreachable: the view cannot be constructed")')
     else:
         lines.append('    raise HEXC_[HBODY_[1]]()')
     kw = 'async def' if coro else 'def'
@@ -118,6 +131,9 @@ def make_callable(m, is_async, log):
     if view:
         ns['HLAST_'] = [None]
         src = 'class V(HMIXIN_):\n    def __init__(self, ctx=None):\n        self._ctx = ctx\n        HLAST_[0] = ctx\n'
+        if body[0] == 'bindfail':
+            # the view cannot be constructed: an unexpected exception before the method is even bound
+            src += '        raise RuntimeError("S3CR3T9")\n'
         if static:
             src += '    @staticmethod\n    %s %s(%s):\n' % (kw, fname, params)
         else:
@@ -219,6 +235,23 @@ def build(cfg, is_async, log, **extra):
             if m.get('share'):
                 shared[m['share']] = (f, is_view, fname)
         c = m['ctx']
+        via = m.get('via', 'direct')
+        if via != 'direct' and not is_view:
+            # the method reaches the dispatcher through a registry (Method objects are re-created by copy()) or through a
+            # registry merged into another one
+            reg = _disp.MethodRegistry()
+            kw = {}
+            if c[0] in ('name', 'pos'):
+                kw['context'] = c[1]
+            if c[0] == 'pos':
+                kw['positional'] = True
+            reg.add(f, name=m['name'], **kw)
+            if via == 'merge':
+                outer = _disp.MethodRegistry()
+                outer.merge(reg)
+                reg = outer
+            disp.add_methods(reg)
+            continue
         if is_view:
             # the view exposes exactly one public method; register it under the descriptor's name
             disp.registry._add_method(_disp.ViewMethod(f, fname, m['name'], 'ctx' if c[1] else None))
@@ -377,6 +410,8 @@ def cbody(b):
         return '(BRpc %s %s %s)' % (cZ(b[1]), cstr(b[2]), 'None' if b[3] == '<unset>' else '(Some %s)' % cjson(b[3]))
     if b[0] == 'rpcargs':
         return 'BRpcArgs'
+    if b[0] == 'bindfail':
+        return 'BBindFail'
     return '(BExc %d)' % b[1]
 
 
